@@ -329,6 +329,10 @@ theorem kindsOf_base {o : Op} (hwf : OpWF o) (hp : PlainOp' o) (hg : gOp o = tru
     unfold gOp at hg
     exact ⟨((Bool.and_eq_true _ _).mp hg).2, hw⟩
 
+theorem groupable_congr {c c' : Dag} {P P' : Paths} (h : Inv c P) (h' : Inv c' P') {x : NodeId} (hx : c'.opOf? x = c.opOf? x) :
+    c'.groupable x = c.groupable x := by
+  rw [groupable_eq h, groupable_eq h', hx]
+
 /-- **the backward walk of `group_one_qubit_gates` on register `r`**, started at `node` with the wire
     `P r = A ++ node :: B` and pending gate list `gates`: it does not raise, keeps DagInv, turns the operations of
     `A ++ [node]` into `fuseBack` of them, leaves the operations of `B` and every other wire as they are -/
@@ -340,7 +344,10 @@ theorem groupWalk_wires (r : Reg) : ∀ (fuel : Nat) {c : Dag} {P : Paths}, Good
     ∃ P', Good (groupWalk r fuel c node gates).1 P' ∧ GroupHyp (groupWalk r fuel c node gates).1 ∧
       wireOps (groupWalk r fuel c node gates).1 (P' r) =
         fuseBack r (wireOps c (A ++ [node])).reverse gates ++ wireOps c B ∧
-      ∀ k, k ≠ r → P' k = P k ∧ wireOps (groupWalk r fuel c node gates).1 (P' k) = wireOps c (P k) := by
+      (∀ k, k ≠ r → P' k = P k ∧ wireOps (groupWalk r fuel c node gates).1 (P' k) = wireOps c (P k)) ∧
+      ((A ++ [node]).filter (fun x => !c.groupable x) ++ B).Sublist (P' r) ∧
+      (∀ x, x ∈ c.nodeIds → (x ∈ A ++ [node] → c.groupable x = false) →
+        (groupWalk r fuel c node gates).1.opOf? x = c.opOf? x) := by
   intro fuel
   induction fuel with
   | zero => intro c P g hh A B node gates hP hB hf; omega
@@ -360,9 +367,11 @@ theorem groupWalk_wires (r : Reg) : ∀ (fuel : Nat) {c : Dag} {P : Paths}, Good
           have := hgates hne
           rw [groupable_inp g.inv] at this; simp at this
       subst hg0
-      refine ⟨rfl, P, g, hh, ?_, fun k _ => ⟨rfl, rfl⟩⟩
-      rw [hP, show ([] : List NodeId) ++ NodeId.inp r :: B = [NodeId.inp r] ++ B from rfl, wireOps_append, wireOps_inp]
-      simp [wireOps_inp, fuseBack, flushK_nil]
+      refine ⟨rfl, P, g, hh, ?_, fun k _ => ⟨rfl, rfl⟩, ?_, fun _ _ _ => rfl⟩
+      · rw [hP, show ([] : List NodeId) ++ NodeId.inp r :: B = [NodeId.inp r] ++ B from rfl, wireOps_append, wireOps_inp]
+        simp [wireOps_inp, fuseBack, flushK_nil]
+      · rw [hP]
+        simp [groupable_inp g.inv]
     · -- at an operation node
       rw [List.concat_eq_append] at hA; subst hA
       obtain ⟨i, hi⟩ := hA1 (by simp); subst hi
@@ -435,12 +444,12 @@ theorem groupWalk_wires (r : Reg) : ∀ (fuel : Nat) {c : Dag} {P : Paths}, Good
               simp only at e2 g2 hh2 hnew2 hold2
               subst e2
               simp only
-              obtain ⟨e3, P3, g3, hh3, hw3, hoth3⟩ := ih g2 hh2 A0 (.op ((c.removeOp (.op i)).1.nodeId + 1) :: b :: B') next []
+              obtain ⟨e3, P3, g3, hh3, hw3, hoth3, hsub3, hkeep3⟩ := ih g2 hh2 A0 (.op ((c.removeOp (.op i)).1.nodeId + 1) :: b :: B') next []
                 hP2 (by simp) hlenf (by simp) (by simp)
-              refine ⟨e3, P3, g3, hh3, ?_, ?_⟩
+              have hmem1 : ∀ x, x ≠ NodeId.op i → x ∈ c.nodeIds → c2.opOf? x = c.opOf? x := fun x hx hxm =>
+                (hold2 x (mem_nodeIds_of_opOf_eq (hold1 x hx hxm) hxm)).trans (hold1 x hx hxm)
+              refine ⟨e3, P3, g3, hh3, ?_, ?_, ?_, ?_⟩
               · rw [hw3]
-                have hmem1 : ∀ x, x ≠ NodeId.op i → x ∈ c.nodeIds → c2.opOf? x = c.opOf? x := fun x hx hxm =>
-                  (hold2 x (mem_nodeIds_of_opOf_eq (hold1 x hx hxm) hxm)).trans (hold1 x hx hxm)
                 have hwA2 : wireOps c2 (A0 ++ [next]) = wireOps c (A0 ++ [next]) :=
                   wireOps_congr (fun x hx => hmem1 x (hneA x hx) (hmemA x hx))
                 have hwB2 : wireOps c2 (b :: B') = wireOps c (b :: B') :=
@@ -481,6 +490,26 @@ theorem groupWalk_wires (r : Reg) : ∀ (fuel : Nat) {c : Dag} {P : Paths}, Good
                 have hxm := g.inv.mem_nodes k x hx
                 have hxne : x ≠ NodeId.op i := fun e => (hoth1 k hk).2 (e ▸ hx)
                 exact hold2 x (mem_nodeIds_of_opOf_eq (hold1 x hxne hxm) hxm)
+              · -- the surviving nodes, in order
+                refine List.Sublist.trans ?_ hsub3
+                rw [List.filter_append, show [NodeId.op i].filter (fun x => !c.groupable x) = [] by simp [hgn],
+                  List.append_nil]
+                have hcongr : (A0 ++ [next]).filter (fun x => !c.groupable x) = (A0 ++ [next]).filter (fun x => !c2.groupable x) := by
+                  apply List.filter_congr
+                  intro x hx
+                  rw [groupable_congr g.inv g2.inv (hmem1 x (hneA x hx) (hmemA x hx))]
+                rw [hcongr]
+                exact List.Sublist.append_left (List.Sublist.cons _ (List.Sublist.refl _)) _
+              · -- the surviving nodes keep their operation
+                intro x hxm hxg
+                have hxne : x ≠ NodeId.op i := fun e => by
+                  have := hxg (by rw [e]; simp); rw [e, hgn] at this; simp at this
+                have h2 := hmem1 x hxne hxm
+                rw [← h2]
+                apply hkeep3 x (mem_nodeIds_of_opOf_eq h2 hxm)
+                intro hxA
+                rw [groupable_congr g.inv g2.inv h2]
+                exact hxg (List.mem_append_left _ hxA)
         · -- the run goes on (or nothing is pending)
           rw [if_neg hcond]
           have hpend : gates ++ kindsOf o ≠ [] → (c.removeOp (.op i)).1.groupable next = true := by
@@ -492,12 +521,31 @@ theorem groupWalk_wires (r : Reg) : ∀ (fuel : Nat) {c : Dag} {P : Paths}, Good
               have : (gates ++ kindsOf o).isEmpty = false := by simpa using hne
               simp [hng, this]
           have hP1' : P1 r = A0 ++ next :: B := by rw [hP1]; simp
-          obtain ⟨e3, P3, g3, hh3, hw3, hoth3⟩ := ih g1 hh1 A0 B next (gates ++ kindsOf o) hP1' hB hlenf hpend hall1
-          refine ⟨e3, P3, g3, hh3, ?_, ?_⟩
+          obtain ⟨e3, P3, g3, hh3, hw3, hoth3, hsub3, hkeep3⟩ := ih g1 hh1 A0 B next (gates ++ kindsOf o) hP1' hB hlenf hpend hall1
+          refine ⟨e3, P3, g3, hh3, ?_, ?_, ?_, ?_⟩
           · rw [hw3, hwA, hwB]
           · intro k hk
             obtain ⟨p3, w3⟩ := hoth3 k hk
             exact ⟨p3.trans (hoth1 k hk).1, by rw [w3, (hoth1 k hk).1, hwK k hk]⟩
+          · refine List.Sublist.trans ?_ hsub3
+            rw [List.filter_append, show [NodeId.op i].filter (fun x => !c.groupable x) = [] by simp [hgn],
+              List.append_nil]
+            have hcongr : (A0 ++ [next]).filter (fun x => !c.groupable x) =
+                (A0 ++ [next]).filter (fun x => !(c.removeOp (.op i)).1.groupable x) := by
+              apply List.filter_congr
+              intro x hx
+              rw [groupable_congr g.inv g1.inv (hold1 x (hneA x hx) (hmemA x hx))]
+            rw [hcongr]
+            exact List.Sublist.refl _
+          · intro x hxm hxg
+            have hxne : x ≠ NodeId.op i := fun e => by
+              have := hxg (by rw [e]; simp); rw [e, hgn] at this; simp at this
+            have h2 := hold1 x hxne hxm
+            rw [← h2]
+            apply hkeep3 x (mem_nodeIds_of_opOf_eq h2 hxm)
+            intro hxA
+            rw [groupable_congr g.inv g1.inv h2]
+            exact hxg (List.mem_append_left _ hxA)
       · -- not groupable: a boundary; nothing is pending
         have hg' : gOp o = false := by simpa using hg
         have hgn : c.groupable (.op i) = false := by rw [groupable_op g.inv hm]; exact hg'
@@ -511,10 +559,15 @@ theorem groupWalk_wires (r : Reg) : ∀ (fuel : Nat) {c : Dag} {P : Paths}, Good
         have ht := groupTake_neg hgn []
         rw [groupWalk_step hnin hedge ht]
         simp only [List.isEmpty_nil, Bool.not_true, Bool.and_false, Bool.false_eq_true, if_false]
-        obtain ⟨e3, P3, g3, hh3, hw3, hoth3⟩ := ih g hh A0 (.op i :: B) next [] hP' (by simp) hlenf (by simp) (by simp)
-        refine ⟨e3, P3, g3, hh3, ?_, hoth3⟩
-        rw [hw3, show NodeId.op i :: B = [NodeId.op i] ++ B from rfl, wireOps_append c [NodeId.op i] B, wireOps_op g.inv.ids_nodup hm]
-        simp [fuseBack, hg', flushK_nil]
+        obtain ⟨e3, P3, g3, hh3, hw3, hoth3, hsub3, hkeep3⟩ := ih g hh A0 (.op i :: B) next [] hP' (by simp) hlenf (by simp) (by simp)
+        refine ⟨e3, P3, g3, hh3, ?_, hoth3, ?_, ?_⟩
+        · rw [hw3, show NodeId.op i :: B = [NodeId.op i] ++ B from rfl, wireOps_append c [NodeId.op i] B, wireOps_op g.inv.ids_nodup hm]
+          simp [fuseBack, hg', flushK_nil]
+        · refine List.Sublist.trans ?_ hsub3
+          rw [List.filter_append, show [NodeId.op i].filter (fun x => !c.groupable x) = [NodeId.op i] by simp [hgn]]
+          simp
+        · intro x hxm hxg
+          exact hkeep3 x hxm (fun hxA => hxg (List.mem_append_left _ hxA))
 
 end Dag
 end Graphiq
